@@ -5,6 +5,7 @@ import (
 	"fmt"
 	"os"
 	"os/exec"
+	"regexp"
 	"sort"
 	"strings"
 
@@ -61,7 +62,36 @@ type C05Scenario struct {
 	Site    Site   `json:"site"`
 	Orders  int    `json:"orders"`     // number of seeded translation orders besides the canonical one
 	Seed    uint64 `json:"order_seed"` // seed of those orders
+	// Entries: from the second seeded order on, the faulted text reaches the parser
+	// through a seeded entry point (string, bytes, simulated reader with seeded
+	// chunking / empty reads / data delivered together with EOF, file, a file whose
+	// path held the VALID module a moment ago with the same size and mtime, a
+	// seekable reader positioned behind a consumed prefix) instead of ParseString.
+	Entries bool `json:"entries,omitempty"`
 }
+
+// c05Entry draws the entry point of translation order o.
+func c05Entry(er *rng, o int, textLen int) (string, *ReaderPlan) {
+	if o < 2 {
+		return "string", nil
+	}
+	switch x := er.intn(20); {
+	case x < 7:
+		return "string", nil
+	case x < 13:
+		return "reader", genReader(er, textLen, false)
+	case x < 15:
+		return "bytes", nil
+	case x < 17:
+		return "file", nil
+	case x < 19:
+		return "samefile", nil
+	default:
+		return "seekreader", nil
+	}
+}
+
+var c05Uniq int
 
 type siteWalker struct {
 	text           string
@@ -604,6 +634,15 @@ func nearMiss(text, old string, mode int) string {
 		case mode == 10 && len(old) >= 4 && old[1] == '"' && old[len(old)-1] == '"' && isUnnamedIdent(old[:1]+old[2:len(old)-1]):
 			// a quoted name made of digits, with a zero in front: "042" is not "42"
 			cand = old[:2] + "0" + old[2:]
+		case mode == 12 && (old[0] == '%' || old[0] == '@' || old[0] == '$') && !isUnnamedIdent(old):
+			// the tail of ANOTHER existing name behind a separator (%op.add exists: %add):
+			// what a look-up keyed by a concatenation such as function + "." + block,
+			// or by a name with its prefix stripped, confuses with a defined entity
+			tails := nameTails(text)
+			if len(tails) == 0 {
+				return ""
+			}
+			cand = old[:1] + tails[int(hash64(old)%uint64(len(tails)))]
 		case mode == 9 && (old[0] == '%' || old[0] == '@' || old[0] == '!'):
 			// 2^63: fits an unsigned but not a signed 64-bit number
 			cand = old[:1] + "9223372036854775808"
@@ -667,13 +706,170 @@ func nearMiss(text, old string, mode int) string {
 	return cand
 }
 
+var (
+	tailsOf   string
+	tailsList []string
+)
+
+// nameTails lists, for the names of text that contain a separator ('.', '_',
+// '-', '$') in the middle, what follows the separator — as far as that tail is
+// itself defined nowhere in text, under any sigil or as a label.
+func nameTails(text string) []string {
+	if tailsOf == text && len(tailsOf) > 0 {
+		return tailsList
+	}
+	isName := func(c byte) bool {
+		return c == '-' || c == '$' || c == '.' || c == '_' || c >= '0' && c <= '9' || c >= 'a' && c <= 'z' || c >= 'A' && c <= 'Z'
+	}
+	seen := map[string]bool{}
+	var out []string
+	add := func(name string) {
+		for i := 1; i+1 < len(name); i++ {
+			if c := name[i]; c != '.' && c != '_' && c != '-' && c != '$' {
+				continue
+			}
+			t := name[i+1:]
+			if seen[t] || isUnnamedIdent("%"+t) || len(t) > 40 {
+				continue
+			}
+			seen[t] = true
+			if countIdent(text, "%"+t) > 0 || countIdent(text, "@"+t) > 0 || countIdent(text, "$"+t) > 0 || strings.Contains(text, "\n"+t+":") {
+				continue
+			}
+			out = append(out, t)
+		}
+	}
+	for i := 0; i < len(text) && len(out) < 64; i++ {
+		c := text[i]
+		if c == '%' || c == '@' || c == '$' {
+			j := i + 1
+			for j < len(text) && isName(text[j]) {
+				j++
+			}
+			if j > i+1 {
+				add(text[i+1 : j])
+			}
+			i = j - 1
+		} else if (i == 0 || text[i-1] == '\n') && isName(c) {
+			j := i
+			for j < len(text) && isName(text[j]) {
+				j++
+			}
+			if j < len(text) && text[j] == ':' {
+				add(text[i:j])
+			}
+			i = j - 1
+		}
+	}
+	sort.Strings(out)
+	tailsOf, tailsList = text, out
+	return out
+}
+
+// nearFault is nearMiss for the site s; mode 13 needs the context of the site.
+func nearFault(text string, s Site, mode int) string {
+	if mode == 13 {
+		return concatTail(text, s)
+	}
+	return nearMiss(text, text[s.Off:s.End], mode)
+}
+
+var concatRe = regexp.MustCompile(`@([-a-zA-Z$._0-9]+),\s*$`)
+
+// concatTail: the site is the block of blockaddress(@F, %B) or of
+// uselistorder_bb @F, %B and F = A<sep>X. If some name X<sep>T exists in the
+// text (a block of @A, say) and T itself is defined nowhere, the block is
+// redirected to %T: function and block put together then spell an existing
+// function/block pair, which a look-up keyed by the concatenation confuses.
+func concatTail(text string, s Site) string {
+	if s.Off < 4 || s.Off > len(text) || s.End > len(text) || s.End <= s.Off {
+		return ""
+	}
+	from := s.Off - 200
+	if from < 0 {
+		from = 0
+	}
+	m := concatRe.FindStringSubmatch(text[from:s.Off])
+	if m == nil {
+		return ""
+	}
+	f, old := m[1], text[s.Off:s.End]
+	if old[0] != '%' {
+		return ""
+	}
+	isSep := func(c byte) bool { return c == '.' || c == '_' || c == '-' || c == '$' }
+	names := allNames(text)
+	for i := 1; i+1 < len(f); i++ {
+		if !isSep(f[i]) {
+			continue
+		}
+		prefix := f[i+1:] + f[i:i+1]
+		for _, n := range names {
+			if !strings.HasPrefix(n, prefix) || len(n) == len(prefix) {
+				continue
+			}
+			t := n[len(prefix):]
+			cand := "%" + t
+			if isUnnamedIdent(cand) || countIdent(text, cand) > 0 || strings.Contains(text, "\n"+t+":") {
+				continue
+			}
+			return cand
+		}
+	}
+	return ""
+}
+
+var (
+	namesOf   string
+	namesList []string
+)
+
+// allNames lists the unquoted names (identifiers of every sigil, and labels) of text.
+func allNames(text string) []string {
+	if namesOf == text && len(namesOf) > 0 {
+		return namesList
+	}
+	isName := func(c byte) bool {
+		return c == '-' || c == '$' || c == '.' || c == '_' || c >= '0' && c <= '9' || c >= 'a' && c <= 'z' || c >= 'A' && c <= 'Z'
+	}
+	seen := map[string]bool{}
+	var out []string
+	for i := 0; i < len(text); i++ {
+		c := text[i]
+		if c == '%' || c == '@' || c == '$' {
+			j := i + 1
+			for j < len(text) && isName(text[j]) {
+				j++
+			}
+			if j > i+1 && !seen[text[i+1:j]] {
+				seen[text[i+1:j]] = true
+				out = append(out, text[i+1:j])
+			}
+			i = j - 1
+		} else if (i == 0 || text[i-1] == '\n') && isName(c) {
+			j := i
+			for j < len(text) && isName(text[j]) {
+				j++
+			}
+			if j < len(text) && text[j] == ':' && !seen[text[i:j]] {
+				seen[text[i:j]] = true
+				out = append(out, text[i:j])
+			}
+			i = j - 1
+		}
+	}
+	sort.Strings(out)
+	namesOf, namesList = text, out
+	return out
+}
+
 func applyFault(text string, s Site, cross, numeric bool) string {
 	return applyFaultNear(text, s, cross, numeric, 0)
 }
 
 func applyFaultNear(text string, s Site, cross, numeric bool, near int) string {
 	if near > 0 && strings.HasPrefix(s.Kind, "use:") {
-		if nm := nearMiss(text, text[s.Off:s.End], near); nm != "" {
+		if nm := nearFault(text, s, near); nm != "" {
 			return text[:s.Off] + nm + text[s.End:]
 		}
 	}
@@ -739,6 +935,7 @@ type c05Outcome struct {
 	nonIdentity        int64
 	doubt              bool
 	decoys             int
+	entries            int
 }
 
 var llvmAs = func() string {
@@ -790,10 +987,32 @@ func c05Run(sc *C05Scenario) *c05Outcome {
 		return out
 	}
 	r := newRNG(sc.Seed)
+	er := newRNG(derive(sc.Seed, "entries"))
 	for o := 0; o <= sc.Orders; o++ {
+		entry, plan := "string", (*ReaderPlan)(nil)
+		if sc.Entries {
+			entry, plan = c05Entry(er, o, len(faulted))
+			if entry != "string" && entry != "bytes" && entry != "reader" && tmpDir == "" {
+				d, derr := os.MkdirTemp("", "c05-")
+				if derr != nil {
+					out.skip = "harness: no temp directory"
+					return out
+				}
+				tmpDir = d
+			}
+		}
 		tape := &Tape{}
 		if o > 0 {
 			tape = genTape(r, TapeParams{NPerm: 512})
+			if *flagLibGo {
+				// The translator starts goroutines of its own: how they interleave
+				// (down to the read and the write of x = append(x, v) on shared state) is
+				// part of the translation order. Drawn from a generator of its own, so
+				// that the map orders of a seed stay what they were.
+				sr := newRNG(derive(sc.Seed, fmt.Sprintf("sched/%d", o)))
+				st := genTape(sr, TapeParams{NSched: 1024, MeanGap: []int{1, 2, 4, 16, 64, 400}[sr.intn(6)], EdgePct: 30, EarlyPct: 30})
+				tape.Gaps, tape.Picks, tape.Edges, tape.RMWs, tape.Procs = st.Gaps, st.Picks, st.Edges, st.RMWs, st.Procs
+			}
 		}
 		simrt.Load(tape.config())
 		simrt.SeamsOn(true, false)
@@ -814,7 +1033,29 @@ func c05Run(sc *C05Scenario) *c05Outcome {
 				}
 			}
 		}
-		pan, msg := protect(func() { simCall(func() { m, err = asm.ParseString(sc.Module, faulted) }) })
+		var pan bool
+		var msg string
+		if entry == "string" {
+			pan, msg = protect(func() { simCall(func() { m, err = asm.ParseString(sc.Module, faulted) }) })
+		} else {
+			// (for the entry samefile the path held the valid module a moment ago)
+			samefilePrev = text
+			c05Uniq++
+			var res *parseResult
+			pan, msg = protect(func() {
+				simCall(func() {
+					res = parseVia(sc.Module, faulted, entry, plan, fmt.Sprintf("c05-%d-%d", os.Getpid(), c05Uniq))
+				})
+			})
+			samefilePrev = ""
+			if res != nil {
+				m, err = res.m, res.err
+				if res.panicMsg != "" {
+					pan, msg = true, res.panicMsg
+				}
+			}
+			out.entries++
+		}
 		st := simrt.Snapshot()
 		simrt.SeamsOn(false, false)
 		out.orders++
@@ -825,6 +1066,15 @@ func c05Run(sc *C05Scenario) *c05Outcome {
 		}
 		if decoyed {
 			order += ", right after a parse of another text that defines that name"
+		}
+		if entry != "string" {
+			order += ", entry point " + entry
+			if plan != nil {
+				order += fmt.Sprintf(" (chunks up to %d bytes, empty reads %v, last bytes together with EOF %v)", plan.MaxChunk, plan.ZeroReads || plan.ZeroRun > 0, plan.EOFWithData)
+			}
+			if entry == "samefile" {
+				order += " (the path held the unfaulted module a moment ago: same size, same modification time)"
+			}
 		}
 		switch {
 		case pan:
@@ -906,7 +1156,7 @@ func c05Search() {
 				sum.Skipped["sites not sampled in the quick tier"]++
 				continue
 			}
-			for variant := 0; variant < 14; variant++ {
+			for variant := 0; variant < 16; variant++ {
 				cross, numeric := variant == 1, variant == 2
 				near := 0
 				if variant >= 3 {
@@ -917,7 +1167,7 @@ func c05Search() {
 						// (findings/C05/); the search stays off exactly this spelling.
 						continue
 					}
-					if !strings.HasPrefix(s.Kind, "use:") || nearMiss(cf.Text, cf.Text[s.Off:s.End], near) == "" {
+					if !strings.HasPrefix(s.Kind, "use:") || nearFault(cf.Text, s, near) == "" {
 						continue
 					}
 				}
@@ -927,7 +1177,7 @@ func c05Search() {
 				if numeric && (s.Num == "" || !strings.HasPrefix(s.Kind, "use:") || s.Num == s.Text) {
 					continue
 				}
-				sc := &C05Scenario{Module: cf.Name, Index: i, Site: s, Cross: cross, Numeric: numeric, Near: near, Orders: orders, Seed: derive(*flagSeed, fmt.Sprintf("C05/%s/%d", cf.Name, i))}
+				sc := &C05Scenario{Module: cf.Name, Index: i, Site: s, Cross: cross, Numeric: numeric, Near: near, Orders: orders, Entries: true, Seed: derive(*flagSeed, fmt.Sprintf("C05/%s/%d", cf.Name, i))}
 				curScenario = sc
 				o := c05Run(sc)
 				if o.skip != "" {
@@ -937,6 +1187,7 @@ func c05Search() {
 				sum.Runs += int64(o.orders)
 				sum.Counters["faulted inputs"]++
 				sum.Counters["faulted parses that followed a parse defining the missing name"] += int64(o.decoys)
+				sum.Counters["faulted parses through an entry point other than ParseString (bytes, reader, file, stat-identical file, seekable reader)"] += int64(o.entries)
 				if cross {
 					sum.Counters["faulted inputs redirected to a name defined in another namespace"]++
 				}
@@ -947,7 +1198,7 @@ func c05Search() {
 					sum.Counters["faulted inputs redirected to a one-character near miss of the original name"]++
 				}
 				if near >= 6 {
-					sum.Counters["faulted inputs redirected to "+map[int]string{6: "the NAME -0", 7: "the empty quoted name", 8: "a number beyond 64 bits", 9: "the number 2^63", 10: "a quoted all-digit name with a leading zero", 11: "the quoted name for a number / the number for a quoted all-digit name"}[near]]++
+					sum.Counters["faulted inputs redirected to "+map[int]string{6: "the NAME -0", 7: "the empty quoted name", 8: "a number beyond 64 bits", 9: "the number 2^63", 10: "a quoted all-digit name with a leading zero", 11: "the quoted name for a number / the number for a quoted all-digit name", 12: "the tail of another existing name behind a separator", 13: "a block name that, put behind its function's name, spells a block of another function"}[near]]++
 				}
 				sum.Counters["fault kind "+siteClass(s.Kind)]++
 				sum.Counters["map-range visits in non-canonical order"] += o.nonIdentity
@@ -968,6 +1219,9 @@ func c05Search() {
 	}
 	sum.Exhausted = thorough
 	sum.Distinct = distinct.list()
+	if tmpDir != "" {
+		os.RemoveAll(tmpDir)
+	}
 	emit(outRec{T: "summary", Property: "C05", Summary: sum})
 }
 
@@ -984,6 +1238,9 @@ func c05Replay(raw json.RawMessage) *outRec {
 		return &outRec{T: "note", Class: "harness-error", Detail: "bad C05 scenario"}
 	}
 	o := c05Run(&sc)
+	if tmpDir != "" {
+		os.RemoveAll(tmpDir)
+	}
 	if o.skip != "" {
 		return &outRec{T: "note", Class: "skipped", Detail: o.skip}
 	}
